@@ -756,3 +756,150 @@ func init() {
 			return out
 		}})
 }
+
+// ---- RANGEIDX
+//
+// `for i := range X.Value { … Y.Value[i] … }` indexes the components of Y with the number of components of X. Unless
+// the function has related the two degrees (a Resize of X to Y's degree, a test of both degrees, X built with Y's
+// degree), a receiver of higher degree than the operand makes the loop run past the end of Y.Value (a panic) and a
+// receiver of lower degree silently drops components.
+func scanRangeIdx(c *core.Ctx) []ob {
+	var out []ob
+	n := 0
+	c.FuncDecls(func(pk *packages.Package, file *ast.File, fd *ast.FuncDecl) {
+		rel := core.ShortPkg(pk.PkgPath)
+		if fd.Body == nil || fileIsTestSupport(c.Program, fd.Pos()) || !(c.IsFixture || strings.HasPrefix(rel, "schemes/") || strings.HasPrefix(rel, "core/") || strings.HasPrefix(rel, "circuits/") || strings.HasPrefix(rel, "multiparty")) {
+			return
+		}
+		// the API boundary: exported methods of evaluator-like types (helpers rely on what their callers established,
+		// package-level utilities on Elements document that the receiver dictates the shape)
+		if !c.IsFixture && (fd.Recv == nil || !fd.Name.IsExported() || !immutRecv.MatchString(core.RecvTypeName(fd))) {
+			return
+		}
+		info := pk.TypesInfo
+		fkey := core.FuncKey(pk, fd)
+		ast.Inspect(fd.Body, func(x ast.Node) bool {
+			rs, ok := x.(*ast.RangeStmt)
+			if !ok || rs.Key == nil {
+				return true
+			}
+			kid, ok := rs.Key.(*ast.Ident)
+			if !ok {
+				return true
+			}
+			xs, ok := unparen(rs.X).(*ast.SelectorExpr)
+			if !ok || xs.Sel.Name != "Value" || !isMetaCarrier(info.TypeOf(xs.X)) {
+				return true
+			}
+			X := exprString(xs.X)
+			kobj := info.Defs[kid]
+			others := map[string]token.Pos{}
+			ast.Inspect(rs.Body, func(y ast.Node) bool {
+				ix, ok := y.(*ast.IndexExpr)
+				if !ok {
+					return true
+				}
+				id, ok := unparen(ix.Index).(*ast.Ident)
+				if !ok || info.Uses[id] != kobj {
+					return true
+				}
+				ys, ok := unparen(ix.X).(*ast.SelectorExpr)
+				if !ok || ys.Sel.Name != "Value" || !isMetaCarrier(info.TypeOf(ys.X)) {
+					return true
+				}
+				if Y := exprString(ys.X); Y != X {
+					if _, seen := others[Y]; !seen {
+						others[Y] = ix.Pos()
+					}
+				}
+				return true
+			})
+			for _, Y := range sortedKeys(others) {
+				n++
+				key := fmt.Sprintf("RANGEIDX:%s#range(%s.Value)->%s.Value", fkey, X, Y)
+				// evidence that the two degrees were related before the loop
+				related := ""
+				mentionsDeg := func(e ast.Node, who string) bool {
+					found := false
+					ast.Inspect(e, func(z ast.Node) bool {
+						switch v := z.(type) {
+						case *ast.CallExpr:
+							if s, ok := unparen(v.Fun).(*ast.SelectorExpr); ok && s.Sel.Name == "Degree" && exprString(s.X) == who {
+								found = true
+							}
+							if isBuiltinCall(info, v, "len") && len(v.Args) == 1 && exprString(v.Args[0]) == who+".Value" {
+								found = true
+							}
+						}
+						return !found
+					})
+					return found
+				}
+				ast.Inspect(fd.Body, func(z ast.Node) bool {
+					if related != "" || z == nil || z.Pos() >= rs.Pos() {
+						return related == ""
+					}
+					switch v := z.(type) {
+					case *ast.CallExpr:
+						if s, ok := unparen(v.Fun).(*ast.SelectorExpr); ok && s.Sel.Name == "Resize" && len(v.Args) >= 1 {
+							base := exprString(s.X)
+							base = strings.TrimSuffix(base, ".El()")
+							if (base == X && mentionsDeg(v.Args[0], Y)) || (base == Y && mentionsDeg(v.Args[0], X)) {
+								related = "Resize at " + c.Rel(v.Pos())
+							}
+							// Resize to a degree variable computed from both (InitOutput*, Max/Min of degrees)
+							if base == X || base == Y {
+								if id, ok := unparen(v.Args[0]).(*ast.Ident); ok && strings.Contains(strings.ToLower(id.Name), "degree") {
+									related = "Resize to the computed degree at " + c.Rel(v.Pos())
+								}
+							}
+						}
+						if strings.HasPrefix(calleeName(info, v), "InitOutput") {
+							txt := exprString(v)
+							if strings.Contains(txt, X) && strings.Contains(txt, Y) {
+								related = "InitOutput at " + c.Rel(v.Pos())
+							}
+						}
+					case *ast.IfStmt:
+						if mentionsDeg(v.Cond, X) && mentionsDeg(v.Cond, Y) {
+							related = "degree test at " + c.Rel(v.Pos())
+						}
+					case *ast.AssignStmt:
+						// X built with Y's degree (or conversely)
+						for i, l := range v.Lhs {
+							if i < len(v.Rhs) && (exprString(l) == X && mentionsDeg(v.Rhs[i], Y) || exprString(l) == Y && mentionsDeg(v.Rhs[i], X)) {
+								related = "constructed with the other's degree at " + c.Rel(v.Pos())
+							}
+						}
+					}
+					return related == ""
+				})
+				props := metaProps(fkey)
+				if related != "" {
+					out = append(out, withProps(okOb("RANGEIDX", key, c.Rel(rs.Pos()), related, true), props...))
+				} else {
+					out = append(out, withProps(violOb("RANGEIDX", key, c.Rel(others[Y]), fmt.Sprintf("%s indexes %s.Value with the component index of %s.Value at %s without having related their degrees: a %s of higher degree than %s runs past the end of %s.Value (panic), one of lower degree drops components", fkey, Y, X, c.Rel(others[Y]), X, Y, Y)), props...))
+				}
+			}
+			return true
+		})
+	})
+	c.Stats["rangeidx_sites"] = n
+	return out
+}
+
+func init() {
+	all := []string{"C04", "C05", "C06", "C09", "C11", "C12", "C13", "C16", "C20"}
+	core.Register(&core.Rule{Name: "RANGEIDX", Props: all,
+		Doc: "a loop over the components of one element that indexes another element's components with the same index is preceded by something relating the two degrees (Resize to the other's degree, a test of both degrees, InitOutput, construction with the other's degree)",
+		Run: func(c *core.Ctx) []ob {
+			out := scanRangeIdx(c)
+			for _, o := range core.Floor("RANGEIDX", nil, "cross-element component loops", c.Stats["rangeidx_sites"], 3) {
+				out = append(out, withProps(o, all...))
+			}
+			for _, o := range control(c, "RANGEIDX", scanRangeIdx, "(fixEvaluator).Halves") {
+				out = append(out, withProps(o, all...))
+			}
+			return out
+		}})
+}
